@@ -4,7 +4,7 @@
    compare_exchange_weak loop; local flush).  `reachable O es s` = the event list es is an execution of the model from
    its initial state ending in s: ALL interleavings, ALL programs, ANY number of threads, all spurious failures.
    `hist O s` = the history of invocation / linearisation / response marks of that execution. *)
-Require Import PV.Base.Prelude PV.Base.F64 PV.Model.Conc PV.Model.AtomicConc PV.Proofs.AtomicConcFacts PV.Spec.SpecC01 PV.Spec.SpecC11 PV.Proofs.AtomicSpecFacts.
+Require Import PV.Base.Prelude PV.Base.F64 PV.Model.Conc PV.Model.AtomicConc PV.Proofs.AtomicConcFacts PV.Spec.SpecC01 PV.Spec.SpecC11 PV.Proofs.AtomicSpecFacts PV.Proofs.AtomicSpecFull.
 From Coq Require Import Permutation Floats.
 Require PV.Model.VecConc PV.Proofs.VecConcBase PV.Proofs.VecConcFacts PV.Props.C10.
 Open Scope N_scope.
@@ -136,26 +136,43 @@ Proof.
   intros e s2 H2 He. exact (done_only_returns O s1 t c RUnit e s2 Hd H2 He).
 Qed.
 
-(* ---- validator accepts the trace => the executable spec holds.
-   FULL STATEMENT:  forall isf es, trace_ok (ops isf) es = true -> in_domain es = true -> spec_c01 isf es = true,
-   where spec_c01 = no panic / hang && only counter calls && (A) read-subset && (B) monotone reads && (C) linearisation search.
-   PROVED (c01_spec_of_validated_partial_int, _float): the clauses "no panic / hang", "only counter calls" and (C) - the search FINDS a
-   linearisation, whatever the number of calls (so no budget / size side condition is needed) - for both flavours; the side
-   condition is executable: calls_in counter_call es (every invoked call belongs to the counter interface).
-   Proof: the spec's marker bookkeeping (calls_of) simulates the model (AtomicSpecFacts.sim_step): along every execution there
-   is an order of the linearised calls that replays on the SPEC's sequential counter to the returned values, respects real time
-   and contains every returned call; the search is complete for such an order (W_search, V_W).
-   NOT PROVED here: clauses (A) and (B) as boolean functions of the trace (spec_c01_AB; (A) needs exactness of the binary64
-   sums inside exact_window, (B) the no-wrap / non-negativity side conditions); their model-level counterparts are c01_read_prefix /
-   c01_read_subset / c01_read_sum and c01_monotone / c01_monotone_float above.  c01_spec_from_clauses states how the pieces combine. *)
-Theorem c01_spec_of_validated_partial_int es :
+(* ---- validator accepts the trace => the executable spec (written from the property text) is true.
+   spec_c01 = no panic / hang && only counter calls && (A) read-subset && (B) monotone reads && (C) linearisation search.
+   INTEGER FLAVOUR, FULL STATEMENT, PROVED:  c01_spec_of_validated_int :
+       trace_ok IntOps es = true -> dom01_int es = true -> spec_c01 false es = true
+     executable domain dom01_int: every invoked call is a counter call, returned patterns are 64-bit, the increments of the trace
+     sum to less than 2^64 (no wrap-around).  No bound on the number of calls: the search succeeds with the spec's own fuel.
+   FLOAT FLAVOUR:  FULL STATEMENT  trace_ok FloatOps es = true -> dom_float es = true -> spec_c01 true es = true.
+     PROVED (c01_spec_of_validated_float_partial): every clause except (A): no panic / hang, only counter calls, (C) the search
+     (c01_search_of_validated_float) and (B) monotone reads, in the executable domain dom01_float (counter calls, non-negative
+     non-NaN increments).  The ONLY missing item is clause (A) for floats, spec_c01_A true es = true: inside exact_window every
+     partial binary64 sum is exact and the decoding qfloat is additive - not proved; c01_spec_from_clauses3 shows that it is
+     all that is missing.
+   Proof: the spec's marker bookkeeping (calls_of) simulates the model (AtomicSpecFacts.sim_step, lin_of_validated): every
+   validated trace has an order of ALL its calls that replays on the SPEC's sequential counter to the returned values and
+   respects real time; the search is complete for such an order (W_search, V_W); (A) and (B) are read off that order
+   (AtomicSpecFull.prefix_sum_split, clauseA_int, clauseB_int, clauseB_float; f2bits_inj for the float reads).
+   VECTOR PART: spec_c01_vec on validated `C vec` traces is NOT proved (it would need the same simulation over C10's model);
+   what is relied on are C10's theorems c01_vec_child_* above. *)
+Theorem c01_search_of_validated_int es :
   trace_ok IntOps es = true -> calls_in counter_call es = true -> spec_c01_core false es = true.
 Proof. exact (c01_core_of_validated_int es). Qed.
-Theorem c01_spec_of_validated_partial_float es :
+Theorem c01_search_of_validated_float es :
   trace_ok FloatOps es = true -> calls_in counter_call es = true -> spec_c01_core true es = true.
 Proof. exact (c01_core_of_validated_float es). Qed.
 Theorem c01_spec_from_clauses isf es : spec_c01_core isf es = true -> spec_c01_AB isf es = true -> spec_c01 isf es = true.
 Proof. exact (spec_c01_from_clauses isf es). Qed.
+Theorem c01_spec_of_validated_int es : trace_ok IntOps es = true -> dom01_int es = true -> spec_c01 false es = true.
+Proof. exact (c01_spec_of_validated_int_full es). Qed.
+Theorem c01_spec_of_validated_float_partial es : trace_ok FloatOps es = true -> dom01_float es = true ->
+  spec_c01_core true es = true /\ spec_c01_B true es = true.
+Proof. exact (AtomicSpecFull.c01_spec_of_validated_float_partial es). Qed.
+Theorem c01_spec_from_clauses3 isf es :
+  spec_c01_core isf es = true -> spec_c01_A isf es = true -> spec_c01_B isf es = true -> spec_c01 isf es = true.
+Proof. exact (spec_c01_from_clauses3 isf es). Qed.
+(* used for the float reads: the canonical pattern determines the float *)
+Theorem c01_f2bits_injective (x y : f64) : f2bits x = f2bits y -> x = y.
+Proof. exact (f2bits_inj x y). Qed.
 (* the generic form: any sequential object that the model's specification steps refine *)
 Theorem c01_search_complete S step same ord pend s fuel :
   W S step same pend s ord -> (length ord < fuel)%nat -> lin_search S step same fuel pend s = true.
@@ -267,12 +284,18 @@ Proof. repeat split; vm_compute; reflexivity. Qed.
 (* real traces are in the domain: the window trace (float) and the flush trace (integer) satisfy the side condition, and the
    theorem (not evaluation) gives the clauses *)
 Example c01_window_trace_in_domain : calls_in counter_call window_trace = true /\ spec_c01_core true window_trace = true.
-Proof. split; [vm_compute; reflexivity|]. apply c01_spec_of_validated_partial_float; [exact c01_window_trace_valid|vm_compute; reflexivity]. Qed.
+Proof. split; [vm_compute; reflexivity|]. apply c01_search_of_validated_float; [exact c01_window_trace_valid|vm_compute; reflexivity]. Qed.
 Example c01_int_trace_in_domain : calls_in counter_call int_trace = true /\ spec_c01_core false int_trace = true.
-Proof. split; [vm_compute; reflexivity|]. apply c01_spec_of_validated_partial_int; [exact (proj1 c01_int_trace_valid)|vm_compute; reflexivity]. Qed.
+Proof. split; [vm_compute; reflexivity|]. apply c01_search_of_validated_int; [exact (proj1 c01_int_trace_valid)|vm_compute; reflexivity]. Qed.
 
-Check c01_spec_of_validated_partial_int : forall es, trace_ok IntOps es = true -> calls_in counter_call es = true -> spec_c01_core false es = true.
-Check c01_spec_of_validated_partial_float : forall es, trace_ok FloatOps es = true -> calls_in counter_call es = true -> spec_c01_core true es = true.
+(* generated traces are in the executable domains, and the theorems (not evaluation) give the spec *)
+Example c01_int_trace_spec_by_theorem : dom01_int int_trace = true /\ spec_c01 false int_trace = true.
+Proof. split; [vm_compute; reflexivity|]. apply c01_spec_of_validated_int; [exact (proj1 c01_int_trace_valid)|vm_compute; reflexivity]. Qed.
+Example c01_window_trace_float_by_theorem : dom01_float window_trace = true /\ spec_c01_B true window_trace = true.
+Proof. split; [vm_compute; reflexivity|]. apply c01_spec_of_validated_float_partial; [exact c01_window_trace_valid|vm_compute; reflexivity]. Qed.
+Check c01_spec_of_validated_int : forall es, trace_ok IntOps es = true -> dom01_int es = true -> spec_c01 false es = true.
+Check c01_search_of_validated_int : forall es, trace_ok IntOps es = true -> calls_in counter_call es = true -> spec_c01_core false es = true.
+Check c01_search_of_validated_float : forall es, trace_ok FloatOps es = true -> calls_in counter_call es = true -> spec_c01_core true es = true.
 Check c01_int_lin : forall es s, reachable IntOps es s ->
   let h := hist IntOps s in
   proj_hist h = proj_ev IntOps es /\ hist_wf h /\ spec_run IntOps 0 (lin_calls h) = Some (cell s, lin_rets h).
@@ -327,9 +350,15 @@ Print Assumptions VecChild.c01_vec_child_cell_is_sum_of_updates.
 Print Assumptions VecChild.c01_vec_child_validated_traces_are_model_paths.
 Print Assumptions c01_vec_spec_accepts_and_rejects.
 Print Assumptions c01_tiny_flush_not_skipped.
-Print Assumptions c01_spec_of_validated_partial_int.
-Print Assumptions c01_spec_of_validated_partial_float.
+Print Assumptions c01_search_of_validated_int.
+Print Assumptions c01_search_of_validated_float.
 Print Assumptions c01_spec_from_clauses.
 Print Assumptions c01_search_complete.
 Print Assumptions c01_window_trace_in_domain.
 Print Assumptions c01_int_trace_in_domain.
+Print Assumptions c01_spec_of_validated_int.
+Print Assumptions c01_spec_of_validated_float_partial.
+Print Assumptions c01_spec_from_clauses3.
+Print Assumptions c01_f2bits_injective.
+Print Assumptions c01_int_trace_spec_by_theorem.
+Print Assumptions c01_window_trace_float_by_theorem.
